@@ -309,7 +309,8 @@ class Statement(object):
         """
         package = self.code_pkg
         value = package.additional
-        if self.instruction.is_pseudo or not (value.is_numeric() or value.is_address()):
+        is_data_value = self.instruction.is_multi_byte or self.instruction.is_multi_word
+        if (self.instruction.is_pseudo and not is_data_value) or not (value.is_numeric() or value.is_address()):
             return
         width = package.size - package.op_code.byte_len() - package.post_byte.byte_len()
         if width < 1:
